@@ -57,7 +57,7 @@ typedef struct {
 } trace_t;
 static trace_t *TR;
 static const uint8_t *PREFIX; static int PREFLEN = 0;
-int icb_team_size = 4; int icb_alloc_points = 0; static int g_in_exec = 0;
+int icb_team_size = 4; int icb_alloc_points = 0; int icb_nested_size = 1; /* team size of nested regions (1 = serialised like libgomp's default) */ static int g_in_exec = 0;
 
 static void verdict(int v, const char *fmt, ...) {
   if (TR->verdict) return;
@@ -216,7 +216,8 @@ static void parallel_common(void (*fn)(void *), void *data, unsigned num_threads
   if (!g_in_exec || CUR < 0) { int sn = seq_next, sc = seq_count; seq_next = 1; seq_count = nsections; fn(data); seq_next = sn; seq_count = sc; return; }
   thr_t *t = &TH[CUR];
   int nested = 0; for (int i = 0; i < t->tcdepth; i++) if (t->tc[i].size > 1) nested = 1;
-  int N = nested ? 1 : (num_threads ? (int)num_threads : icb_team_size);
+  int N = nested ? icb_nested_size : (num_threads ? (int)num_threads : icb_team_size);
+  if (nested && t->tcdepth >= 2 && N > 1) { int deep = 0; for (int i = 0; i < t->tcdepth; i++) if (t->tc[i].size > 1) deep++; if (deep >= 2) N = 1; } /* at most two active levels */
   if (nteams >= 4096) { verdict(4, "too many teams"); return; }
   int team = nteams++; TEAMS[team].next = 1; TEAMS[team].count = nsections;
   tstart ts[MAXT]; int me = CUR;
@@ -309,7 +310,7 @@ static void run_one(const work_t *w) {
   fflush(NULL);
   pid_t p = fork();
   if (p == 0) { execute(w->c, w->len); _exit(0); }
-  int st; { double t1 = now(); for (;;) { pid_t q = waitpid(p, &st, WNOHANG); if (q == p) break; if (q < 0 && errno != EINTR) break; if (now() - t1 > 100) { kill(p, SIGKILL); waitpid(p, &st, 0); break; } usleep(100); } }
+  int st; { double t1 = now(); for (;;) { pid_t q = waitpid(p, &st, WNOHANG); if (q == p) break; if (q < 0 && errno != EINTR) break; if (now() - t1 > 400) { kill(p, SIGKILL); waitpid(p, &st, 0); break; } usleep(100); } }
   if (!(WIFEXITED(st) && (WEXITSTATUS(st) == 0 || WEXITSTATUS(st) == 3))) { if (!TR->verdict) { TR->verdict = 2; snprintf(TR->msg, sizeof TR->msg, "execution ended abnormally (status %x)", st); } }
   __sync_fetch_and_add(&X->schedules, 1); __sync_fetch_and_add(&X->decisions, (uint64_t)TR->npts); __sync_fetch_and_add(&X->accesses, TR->accesses);
   if ((uint64_t)TR->npts > X->maxpts) X->maxpts = (uint64_t)TR->npts; if (TR->maxthreads > X->maxthreads) X->maxthreads = TR->maxthreads;
@@ -344,7 +345,7 @@ static void worker(void) {
     if (g_deadline > 0 && now() > g_deadline) { X->deadline_hit = 1; X->stop = 1; return; }
     qlock();
     if (X->head == X->tail) { int act = X->active; qunlock(); if (act == 0) return;
-      { static double idle_since = 0; static uint64_t seen = 0; if (seen != X->schedules || idle_since == 0) { seen = X->schedules; idle_since = now(); } else if (now() - idle_since > 120) { X->stalled = 1; X->stop = 1; return; } }
+      { static double idle_since = 0; static uint64_t seen = 0; if (seen != X->schedules || idle_since == 0) { seen = X->schedules; idle_since = now(); } else if (now() - idle_since > 450) { X->stalled = 1; X->stop = 1; return; } }
       usleep(200); continue; }
     work_t w = Q[X->head % QCAP]; X->head++; __sync_fetch_and_add(&X->active, 1);
     qunlock();
